@@ -254,8 +254,16 @@ def _wants_env(f):
     return f
 
 
-def std_models():
-    """call models shared by the queries (a query adds its own on top; its own patterns win when listed first)"""
+def std_models(opaque_ok=False):
+    """call models shared by the queries (a query adds its own on top; its own patterns win when listed first).
+    opaque_ok: Option / Result combinators applied to a value the executor does not know the constructor of answer with an
+    opaque term (the closure is then NOT run) instead of giving up"""
+
+    def opaque(ex, what, x, extra=""):
+        if not opaque_ok:
+            raise Inconclusive("%s of %s" % (what, x[:60]))
+        ex.smt.fun("opq_" + what, 1)
+        return "(opq_%s %s)" % (what, x)
 
     def m_branch(ex, v):
         x = v[0]
@@ -265,7 +273,12 @@ def std_models():
             return "(C_Break %s)" % x
         if x == "C_None":
             return "(C_Break C_None)"
-        raise Inconclusive("branch of %s" % x[:60])
+        # an opaque Result (the value of a call the query does not model): both outcomes
+        ex._konst("int_0")
+        for f in ("discr", "unwrap_ok", "unwrap_err"):
+            ex.smt.fun(f, 1)
+        ok = "(= (discr %s) k_int_0)" % x
+        return [(ok, "(C_Continue (unwrap_ok %s))" % x), ("(not %s)" % ok, "(C_Break (C_Err (unwrap_err %s)))" % x)]
 
     @_wants_env
     def m_new(ex, v, env):
@@ -401,7 +414,7 @@ def std_models():
         if x.startswith("(C_Err "):
             return x
         if not x.startswith("(C_Ok "):
-            raise Inconclusive("Result::map of %s" % x[:60])
+            return opaque(ex, "result_map", x)
         return [(conj(c), "(C_Ok %s)" % r) for c, r in run_closure(ex, env, v[1], [split_sexpr_args(x)[0]])]
 
     @_wants_env
@@ -410,7 +423,7 @@ def std_models():
         if x == "C_None":
             return x
         if not x.startswith("(C_Some "):
-            raise Inconclusive("Option::map of %s" % x[:60])
+            return opaque(ex, "option_map", x)
         return [(conj(c), "(C_Some %s)" % r) for c, r in run_closure(ex, env, v[1], [split_sexpr_args(x)[0]])]
 
     @_wants_env
@@ -419,7 +432,7 @@ def std_models():
         if x.startswith("(C_Err ") or x == "C_None":
             return x
         if not (x.startswith("(C_Ok ") or x.startswith("(C_Some ")):
-            raise Inconclusive("and_then of %s" % x[:60])
+            return opaque(ex, "and_then", x)
         rs = run_closure(ex, env, v[1], [split_sexpr_args(x)[0]])
         if not rs:
             return [("true", "PANICVAL")]
@@ -431,7 +444,7 @@ def std_models():
             return "(C_Some %s)" % split_sexpr_args(x)[0]
         if x.startswith("(C_Err "):
             return "C_None"
-        raise Inconclusive("Result::ok of %s" % x[:60])
+        return opaque(ex, "ok", x)
 
     def m_then_some(ex, v):
         b = mk_v2b(v[0])
@@ -465,7 +478,7 @@ def std_models():
 
     return {
         r" as Try>::branch$": m_branch,
-        r" as FromResidual<.*>>::from_residual$": lambda ex, v: v[0] if v[0].startswith("(C_Err") or v[0] == "C_None" else "(C_Err %s)" % v[0],
+        r" as FromResidual<.*>>::from_residual$": lambda ex, v: v[0] if v[0].startswith("(C_Err") or v[0] == "C_None" else ("C_None" if re.search(r"Option.*None$", v[0]) else "(C_Err %s)" % v[0]),
         r"^Vec::<.*>::new$|^Vec::<.*>::with_capacity$": m_new,
         r"^Vec::<.*>::push$": m_push,
         r"^Vec::<.*>::is_empty$": m_is_empty,
@@ -495,3 +508,75 @@ def std_models():
         r"^Pin::<&mut .*>::new_unchecked$": lambda ex, v: v[0],
         r" as IntoFuture>::into_future$": lambda ex, v: v[0],
     }
+
+
+# ------------------------------------------------------------------------------------------------
+# async blocks / async closure bodies run to completion from their own MIR
+# ------------------------------------------------------------------------------------------------
+
+def coroutine_body(ex, co):
+    """the MIR body of the coroutine value `co` (a `(C_closure_{coroutine@file:l:c: l:c (#0)} fields..)` term)"""
+    head = co.lstrip("(").split(" ")[0].rstrip(")")
+    src = ex.closure_src.get(head)
+    if src is None or not src.startswith("{coroutine@"):
+        raise Inconclusive("not a coroutine of this crate: %s" % co[:60])
+    loc = src.split("@", 1)[1].rstrip("}").split(" (#")[0]
+    hits = [b for name, bs in ex.bodies.items() for b in bs
+            if re.search(r"^_1: Pin<&mut \{(async block|async closure body|async fn body[^}]*)@?%s\}>" % re.escape(loc), b.args)
+            or re.search(r"^_1: Pin<&mut \{[^}]*@%s\}>" % re.escape(loc), b.args)]
+    if len(hits) > 1:
+        # an async closure also has a by-move twin `{synthetic#0}` of the same body: the ordinary one is taken
+        hits = [b for b in hits if "{synthetic#" not in b.name] or hits
+    if len(hits) != 1:
+        raise Inconclusive("coroutine body for %s not found uniquely (%d)" % (src, len(hits)))
+    return hits[0]
+
+
+def run_coroutine(ex, env, co):
+    """run the coroutine value `co` from its start state until it returns Ready (every future it awaits has to be answered
+    Ready by the query's poll model) -> [(conds, value, env_after)]"""
+    body = coroutine_body(ex, co)
+    ex.smt.fun("CO", 1)
+    ex.nseq += 1
+    cell = "(CO %s)" % ex._konst("int_%d" % (200000 + ex.nseq))
+    sub_env = {k: v2 for k, v2 in env.items() if k.startswith("__")}
+    heap = dict(sub_env.get("__heap", {}))
+    parts = split_sexpr_args(co) if co.startswith("(") else []
+    for i, part in enumerate(parts):
+        heap[(cell, str(i))] = part
+    sub_env["__heap"] = heap
+    sub_env["_1"] = "(C_pin %s)" % cell
+    sub_env["_2"] = "CX"
+    ex.smt.fun("C_pin", 1)
+    ex.discr_of["(deref %s)" % cell] = 0
+    sub = []
+    ex.inlined.add(body.name)
+    ex._walk(body, "bb0", sub_env, [], [], sub, 1)
+    out = []
+    for pc2, ret2, calls2, env2 in sub:
+        if ret2 == "PANIC":
+            out.append((list(pc2), "PANIC", env2))
+            continue
+        if not ret2.startswith("(CE_Poll_Ready"):
+            raise Inconclusive("a coroutine did not complete: %s" % ret2[:60])
+        a = split_sexpr_args(ret2)
+        out.append((list(pc2), a[0] if a else "UNIT", env2))
+    return out
+
+
+def run_all_coroutines(ex, env, cos):
+    """run the coroutines one after the other (the order of a join / an ordered stream) -> [(conds, [values], env_after)]"""
+    acc = [([], [], env)]
+    for co in cos:
+        nxt = []
+        for conds, vals, e in acc:
+            for c2, v, e2 in run_coroutine(ex, e, co):
+                e3 = dict(e2)
+                for k in list(e3):
+                    if not k.startswith("__"):
+                        del e3[k]
+                nxt.append((conds + c2, vals + [v], e3))
+        acc = nxt
+        if len(acc) > 256:
+            raise Inconclusive("too many forks while joining futures")
+    return acc
